@@ -88,6 +88,10 @@ def corpus_cases(weakly):
     x_, y_, z_, e_, f2_, g_, a2_, p2_, q_ = [V(i) for i in range(9)]
     mcb = [(1, And(And(x_, y_), z_), a2_), (2, e_, a2_), (3, f2_, a2_), (4, g_, a2_), (5, And(And(Not(x_), Not(y_)), Not(z_)), p2_), (6, Not(e_), q_), (7, Not(f2_), q_)]
     cs.append(make_case("corp-multiclause", 9, mcb, [(1, Or(x_, g_), And(a2_, Or(p2_, q_))), (2, g_, And(a2_, q_)), (3, x_, And(a2_, p2_))], weakly))
+    # a multi-clause conditional falsified alone costs more clauses than together with a second one (unsorted superset filter seed)
+    cs.append(make_case("corp-costinv", 6, [(1, And(And(V(1), V(2)), V(3)), V(0)), (2, V(4), V(0))],
+                        [(1, V(5), And(And(And(V(0), Not(And(And(V(1), V(2)), V(3)))), Or(And(And(Not(V(1)), Not(V(2))), Not(V(3))), Not(V(4)))), Or(V(5), Not(V(4))))),
+                         (2, V(4), V(0))], weakly))
     # redundant specialisation whose impact may be 0 (c-inference cross-pruning seed)
     cs.append(make_case("corp-redundant", 3, [(1, V(1), V(0)), (2, V(1), And(V(0), V(2)))], [(1, Not(V(2)), And(V(0), Not(V(1)))), (2, V(2), And(V(0), Not(V(1)))), (3, V(1), V(0))], weakly))
     # unfalsifiable conditional
@@ -151,6 +155,27 @@ def gen_ops_cases(rng, count, weakly, max_atoms=5, max_conds=7, nq=6, prefix="g"
             for _ in range(3):
                 xs = rng.sample(ats, min(len(ats), 4))
                 qs.append((len(qs) + 1, Or(V(xs[0]), V(xs[-1])), And(V(xs[1 % len(xs)]), Or(V(xs[2 % len(xs)]), V(xs[3 % len(xs)])))))
+        if mc and nq:
+            # cost inversion: falsifying the multi-clause conditional c1 alone violates more clauses than falsifying it in one
+            # clause together with c2; q (fresh) is forced wherever c2 is not falsified
+            def conj_lits(f):
+                if f[0] == "&":
+                    return conj_lits(f[1]) + conj_lits(f[2])
+                return [f]
+            multi = [(k_, b_, a_) for (k_, b_, a_) in base if len(conj_lits(b_)) >= 2]
+            single = [(k_, b_, a_) for (k_, b_, a_) in base if len(conj_lits(b_)) == 1]
+            if multi and single:
+                k1, b1, a1 = rng.choice(multi)
+                same = [c_ for c_ in single if c_[2] == a1] or single
+                k2, b2, a2 = rng.choice(same)
+                allneg = None
+                for l in conj_lits(b1):
+                    allneg = Not(l) if allneg is None else And(allneg, Not(l))
+                f2 = And(a2, Not(b2))
+                qa = V(n)
+                A = And(And(And(a1, Not(b1)), Or(allneg, f2)), Or(qa, f2))
+                qs.append((len(qs) + 1, qa, A))
+                qs.append((len(qs) + 1, Not(qa), A))
         # queries built from base formulas (direct inference, specificity)
         if base:
             k0 = rng.choice(base)
@@ -173,6 +198,38 @@ def gen_ops_cases(rng, count, weakly, max_atoms=5, max_conds=7, nq=6, prefix="g"
                 for l in suffix:
                     cur = And(cur, l)
                 qs.append((len(qs) + 1, bb, cur))
+        # deep twins inside the BASE: two conditionals (and queries) whose antecedents share a context of 4..7 connectives around
+        # different cores - anything keyed by a printed formula must tell them apart
+        if base and rng.random() < 0.25:
+            depth = rng.randrange(5, 9)
+            if n >= 2 and rng.random() < 0.7:
+                # transparent context  l1 & (l2 | (l1 & (l2 | ... core)))  ==  l1 & (l2 | core): the core matters
+                a1, a2 = rng.sample(range(n), 2)
+                l1 = V(a1) if rng.random() < 0.7 else Not(V(a1))
+                l2 = V(a2) if rng.random() < 0.7 else Not(V(a2))
+                ctx = [("|" if i % 2 == 0 else "&", l2 if i % 2 == 0 else l1, rng.random() < 0.7) for i in range(depth)]
+            else:
+                ctx = [(rng.choice("&|"), gen_lit(rng, n), rng.random() < 0.5) for _ in range(depth)]
+
+            def plug(core):
+                f = core
+                for (o, side, left) in ctx:
+                    f = (o, side, f) if left else (o, f, side)
+                return f
+            cores = [gen_lit(rng, n), gen_lit(rng, n), gen_formula(rng, n, 1, 0.0)]
+            idx = rng.sample(range(len(base)), min(2, len(base)))
+            how = rng.choice(["same", "opposite", "own"])      # consequent of the second twin relative to the first
+            b0 = base[idx[0]][1]
+            for t, j in enumerate(idx):
+                kk, bb, aa = base[j]
+                nb = bb if (how == "own" or t == 0) else (b0 if how == "same" else (b0[1] if b0[0] == "!" else Not(b0)))
+                base[j] = (kk, nb, plug(cores[t]))
+            if len(idx) > 1:
+                qs.append((len(qs) + 1, base[idx[1]][1], base[idx[1]][2]))      # direct inference of the second twin
+            kk, bb, aa = base[idx[0]]
+            for core in cores:
+                qs.append((len(qs) + 1, bb, plug(core)))
+                qs.append((len(qs) + 1, Not(bb), plug(core)))
         # a redundant specialisation (B|A,C) of a conditional of the base, and queries about what falsifies a conditional
         if base and rng.random() < 0.3:
             kk, bb, aa = rng.choice(base)
@@ -334,6 +391,30 @@ def world_queries(rng, case, part, count=3):
         sel = rng.sample(g, rng.randrange(2, min(6, len(g)) + 1))
         nb = rng.randrange(1, len(sel))
         out.append((disj(sel[:nb]), disj(sel)))
+    return out
+
+
+def tradeoff_queries(rng, case, count=4):
+    """(minterm(w1) | minterm(w1) ; minterm(w2)) for worlds whose sets of falsified conditionals are incomparable (neither
+    contains the other): asks whether one sum of impacts is always below another one - decided by the whole solution space
+    of the constraint system of c-inference, not by its smallest solutions."""
+    import itertools as _it
+    from common import ev
+    n = case["n"]
+    if n > 6 or len(case["base"]) < 2:
+        return []
+    prof = {}
+    for w in _it.product([False, True], repeat=n):
+        fs = frozenset(k for (k, b, a) in case["base"] if ev(a, w) and not ev(b, w))
+        prof.setdefault(fs, w)
+    sets = [fs for fs in prof if fs]
+    pairs = [(s1, s2) for s1 in sets for s2 in sets if not s1 <= s2 and not s2 <= s1]
+    rng.shuffle(pairs)
+    pairs.sort(key=lambda p: -(len(p[1]) - len(p[0])))      # few conditionals against many first
+    out = []
+    for (s1, s2) in pairs[:count]:
+        w1, w2 = prof[s1], prof[s2]
+        out.append((minterm(w1), Or(minterm(w1), minterm(w2))))
     return out
 
 
